@@ -333,9 +333,14 @@ def use_task(task):
     cfgs, walks, seed = task
     out = {"n": 0, "fails": []}
     for ci, cfg in enumerate(cfgs):
-        for copy in ("transforms.made", "nn.nde.made"):
+        for copy, tied in [(c_, t_) for c_ in ("transforms.made", "nn.nde.made") for t_ in (False, True)]:
+            if tied and (cfg["res"] or cfg["B"] < 2):
+                continue
             torch.manual_seed(seed + ci)
             net = build_net(copy, cfg, ctx=None, activation="identity")
+            if tied:
+                # weight tying: two hidden layers share one Parameter (each keeps its own mask and degrees)
+                net.blocks[1].linear.weight = net.blocks[0].linear.weight
             D, m = cfg["D"], cfg["m"]
             g = torch.Generator().manual_seed(seed + 17 * ci)
             wsets = {}
@@ -383,7 +388,7 @@ def use_task(task):
                         bad = [(o, [j + 1 for j in range(D) if j >= o // m and float(J[o, j]) != 0.0]) for o in range(J.shape[0])]
                         bad = [b for b in bad if b[1]]
                         if bad:
-                            out["fails"].append({"copy": copy, "cfg": cfg, "draws": None, "ctx": None, "seed": seed + ci, "clause": "weights_after_history", "history": list(hist), "detail": "after %s output unit %d (feature %d) depends on inputs %s" % (hist[-4:], bad[0][0], bad[0][0] // m + 1, bad[0][1])})
+                            out["fails"].append({"copy": copy, "cfg": cfg, "draws": None, "ctx": None, "seed": seed + ci, "clause": "weights_after_history", "history": list(hist), "tied": tied, "detail": ("two hidden layers share their weight Parameter; " if tied else "") + "after %s output unit %d (feature %d) depends on inputs %s" % (hist[-4:], bad[0][0], bad[0][0] // m + 1, bad[0][1])})
                             break
     return out
 
